@@ -44,6 +44,10 @@ KERNELS = [
          ret="A2 m m (Option α)", pick=None, pids=["C08", "C03", "C05"]),
     dict(name="discordance", file="skcriteria/agg/electre.py", fn="discordance", params={"matrix": M, "objectives": V},
          ret="A2 m m (Option α)", pick=None, pids=["C08", "C03", "C05"]),
+    dict(name="electre1_outrank", file="skcriteria/agg/electre.py", fn="electre1", params={"matrix": M, "objectives": V, "weights": V, "p": S, "q": S},
+         ret="A2 m m Bool", pick=1, pids=["C08", "C03"]),
+    dict(name="electre1_kernel", file="skcriteria/agg/electre.py", fn="electre1", params={"matrix": M, "objectives": V, "weights": V, "p": S, "q": S},
+         ret="A1 m Bool", pick=0, pids=["C08", "C03"]),
     dict(name="cenit", file="skcriteria/preprocessing/scalers.py", fn="matrix_scale_by_cenit_distance", params={"matrix": M, "objectives": V},
          ret=M, pick=None, pids=["C11", "C12"]),
     dict(name="scale_by_sum_M", file="skcriteria/preprocessing/scalers.py", fn="scale_by_sum", params={"arr": M}, bind={"axis": 0}, ret=M, pick=None,
@@ -172,6 +176,8 @@ class Tr:
             return f"(Np.{op} {self.e(node.left)} {self.e(node.right)})"
         if isinstance(node, ast.UnaryOp) and isinstance(node.op, ast.USub) and isinstance(node.operand, ast.Constant) and node.operand.value == 1:
             return "(⟨-1⟩ : A0 α)"
+        if isinstance(node, ast.UnaryOp) and isinstance(node.op, ast.Invert):
+            return f"(Np.logical_not {self.e(node.operand)})"
         if isinstance(node, ast.UnaryOp) and isinstance(node.op, ast.USub):
             return f"(Np.negative {self.e(node.operand)})"
         if isinstance(node, ast.Compare) and len(node.ops) == 1:
@@ -359,6 +365,14 @@ class Tr:
                 self.bind.pop(nm, None)
                 self.env.add(nm)
                 lines.append(f"  let {_q(nm)} := {rhs}")
+            elif isinstance(s, ast.With) and len(s.items) == 1 and isinstance(s.items[0].context_expr, ast.Call) \
+                    and self._dotted(s.items[0].context_expr.func) in ("np.errstate", "numpy.errstate") and s.items[0].optional_vars is None:
+                # `with np.errstate(...)`: only silences floating-point warnings; the body runs as it stands
+                for b in s.body:
+                    if not (isinstance(b, ast.Assign) and len(b.targets) == 1 and isinstance(b.targets[0], ast.Name)):
+                        raise Untranslated("statement inside np.errstate")
+                    self.env.add(b.targets[0].id)
+                    lines.append(f"  let {_q(b.targets[0].id)} := {self.e(b.value)}")
             elif isinstance(s, ast.For):
                 lines.append(self.rows_loop(s))
             elif isinstance(s, ast.If) and not s.orelse and isinstance(s.test, ast.Name) and self.k["params"].get(s.test.id) == "Bool" \
@@ -478,7 +492,7 @@ def translate_one(repo: Path, k):
             if not _site_ok(repo, site):
                 raise Untranslated(f"call site {site[1]}.{site[2]} does not call {site[3]} with {site[4]}")
         tr = Tr(k, fn)
-        tr.helpers = {n.name: n for n in tree.body if isinstance(n, ast.FunctionDef) and n.name.startswith("_") and n.name != k["fn"]}
+        tr.helpers = {n.name: n for n in tree.body if isinstance(n, ast.FunctionDef) and n.name != k["fn"]}
         lines, result, rank = tr.body()
         params = " ".join(f"({_q(p)} : {t})" for p, t in k["params"].items() if p in names)
         src = head + "section\n" + CTX + "\n"
